@@ -35,14 +35,15 @@ PROPS = {
             [fuzz("FuzzC09" + v) for v in ("icmp4", "icmp6", "udp4", "udp6", "tcp", "tcpparis", "sack", "Parser")]},
     "C10": {"jobs": [enum("TestC10Single"), rapid("TestC10Multi", 2500, 8000)]},
     "C06": {"jobs": [rapid("TestC06", 1200, 8000), enum("TestC06AllTTLs"), enum("TestC06UDP6ChecksumSearch")]},
-    "C20": {"jobs": [enum("TestC20Table"), rapid("TestC20", 2000, 2000)]},
+    "C20": {"jobs": [enum("TestC20Table"), rapid("TestC20", 2000, 2000), enum("TestC20ConnectTimeout")]},
     "C11": {"jobs": [rapid("TestC11", 800, 4000), rapid("TestC11Request", 800, 3000), rapid("TestC11Alloc", 500, 3000), enum("TestC11EchoIDs")]},
     "C12": {"jobs": [enum("TestC12Classes"), rapid("TestC12Random", 20000, 300000), rapid("TestC12EndToEnd", 1500, 10000)]},
     "C13": {"jobs": [{"kind": "script", "name": "C13Kernel", "run": "C13Kernel", "cmd": ["python3", "c13_kernel.py"], "timeout_quick": 600, "timeout_thorough": 2400}]},
     "C14": {"jobs": [rapid("TestC14", 400, 1500, race=True, env={"GORACE": "halt_on_error=1 exitcode=66"}),
                      rapid("TestC14Fanout", 250, 1000, race=True, env={"GORACE": "halt_on_error=1 exitcode=66"}),
                      rapid("TestC11Alloc", 300, 2000, race=True, name="TestC11Alloc(race)", env={"GORACE": "halt_on_error=1 exitcode=66"}),
-                     rapid("TestC15", 300, 1500, race=True, name="TestC15(race)", thorough_only=True, env={"GORACE": "halt_on_error=1 exitcode=66"})]},
+                     rapid("TestC15", 300, 1500, race=True, name="TestC15(race)", thorough_only=True, env={"GORACE": "halt_on_error=1 exitcode=66"}),
+                     {"kind": "script", "name": "C13KernelRace", "run": "C13KernelRace", "cmd": ["python3", "c13_kernel.py"], "env": {"VERIF_C13_RACE": "1"}, "timeout_quick": 900, "timeout_thorough": 2400}]},
     "C15": {"jobs": [rapid("TestC15", 2500, 8000)]},
     "C16": {"jobs": [rapid("TestC16", 20000, 120000)]},
     "C17": {"jobs": [rapid("TestC17Docs", 10000, 60000), rapid("TestC17Request", 1000, 4000)]},
